@@ -625,4 +625,1034 @@ theorem whoisChan_clean (c : Option Str × Str) :
 @[simp] theorem ErrCannotDoCommand972_clean (client : Str) :
     Clean (ErrCannotDoCommand972 client) ↔ Clean client := by reply_tac ErrCannotDoCommand972
 
+set_option linter.unusedSimpArgs false
+
+/-! ### command fields -/
+
+def CleanGroups (ms : List (Str × List Str)) : Prop := ∀ g ∈ ms, Clean g.1 ∧ CleanL g.2
+
+/-- every `Str` (and `Char`) field of a command is clean -/
+def CleanCmd : Command → Prop
+  | .CAP _ caps _ => ∀ cs, caps = some cs → CleanL cs
+  | .AUTHENTICATE => True
+  | .PASS p => Clean p
+  | .NICK n => Clean n
+  | .USER u h s r => Clean u ∧ Clean h ∧ Clean s ∧ Clean r
+  | .PING t => Clean t
+  | .PONG t => Clean t
+  | .OPER n p => Clean n ∧ Clean p
+  | .QUIT => True
+  | .JOIN chs keys => CleanL chs ∧ ∀ ks, keys = some ks → CleanL ks
+  | .PART chs r => CleanL chs ∧ CleanO r
+  | .TOPIC ch t => Clean ch ∧ CleanO t
+  | .NAMES chs => CleanL chs
+  | .LIST chs s => CleanL chs ∧ CleanO s
+  | .INVITE n ch => Clean n ∧ Clean ch
+  | .KICK ch us cm => Clean ch ∧ CleanL us ∧ CleanO cm
+  | .MOTD t => CleanO t
+  | .VERSION t => CleanO t
+  | .ADMIN t => CleanO t
+  | .CONNECT t _ r => Clean t ∧ CleanO r
+  | .LUSERS => True
+  | .TIME s => CleanO s
+  | .STATS q s => q ≠ nl ∧ CleanO s
+  | .LINKS r m => CleanO r ∧ CleanO m
+  | .HELP s => CleanO s
+  | .INFO => True
+  | .MODE t ms => Clean t ∧ CleanGroups ms
+  | .PRIVMSG ts t => CleanL ts ∧ Clean t
+  | .NOTICE ts t => CleanL ts ∧ Clean t
+  | .WHO m => Clean m
+  | .WHOIS t ns => CleanO t ∧ CleanL ns
+  | .WHOWAS n _ s => Clean n ∧ CleanO s
+  | .KILL n cm => Clean n ∧ Clean cm
+  | .REHASH => True
+  | .RESTART => True
+  | .SQUIT s cm => Clean s ∧ Clean cm
+  | .AWAY t => CleanO t
+  | .USERHOST ns => CleanL ns
+  | .WALLOPS t => Clean t
+  | .ISON ns => CleanL ns
+  | .DIE m => CleanO m
+
+/-- every `Str` / `Char` a command error carries is clean -/
+def CleanErr : CommandError → Prop
+  | .unknownCommand s => Clean s
+  | .unknownSubcommand _ s => Clean s
+  | .unknownMode _ c ch => c ≠ nl ∧ Clean ch
+  | .invalidModeParam t c p d => Clean t ∧ c ≠ nl ∧ Clean p ∧ Clean d
+  | _ => True
+
+def CleanRes : Except CommandError Command → Prop
+  | .ok c => CleanCmd c
+  | .error e => CleanErr e
+
+theorem groupModes_clean : ∀ {rest : List Str} {ms : Str} {acc : List Str},
+    Clean ms → CleanL acc → CleanL rest → CleanGroups (groupModes ms acc rest)
+  | [], ms, acc, h1, h2, _ => by
+    intro g hg
+    simp only [groupModes, List.mem_singleton] at hg
+    subst hg; exact ⟨h1, h2.reverse⟩
+  | s :: rest, ms, acc, h1, h2, h3 => by
+    have h3' := cleanL_cons.1 h3
+    unfold groupModes
+    split
+    · intro g hg
+      rcases List.mem_cons.1 hg with rfl | hg
+      · exact ⟨h1, h2.reverse⟩
+      · exact groupModes_clean h3'.1 cleanL_nil h3'.2 g hg
+    · exact groupModes_clean h1 (cleanL_cons.2 ⟨h3'.1, h2⟩) h3'.2
+
+theorem parseNumParam_cleanRes {max : Nat} {s : Str} {e : CommandError} {f : Nat → Command}
+    (he : CleanErr e) (hf : ∀ n, CleanCmd (f n)) :
+    CleanRes (match parseNumParam max s e with | .ok v => .ok (f v) | .error e => .error e) := by
+  unfold parseNumParam
+  cases parseUnsigned max s <;> simp [CleanRes, *]
+
+theorem parseNumParam_error {max : Nat} {s : Str} {e e' : CommandError}
+    (h : parseNumParam max s e = .error e') : e' = e := by
+  unfold parseNumParam at h
+  split at h
+  · cases h
+  · cases h; rfl
+
+theorem cleanL_of_map_head {f : Str → List Str} {l cs : List Str} (hl : CleanL l)
+    (hf : ∀ s, Clean s → CleanL (f s)) (h : Option.map f l.head? = some cs) : CleanL cs := by
+  cases l with
+  | nil => cases h
+  | cons a l => cases h; exact hf a (cleanL_cons.1 hl).1
+
+@[simp] theorem cleanGroups_nil : CleanGroups [] := by intro g hg; cases hg
+
+theorem head?_cleanO {l : List Str} (h : CleanL l) : CleanO l.head? := h.head?
+
+theorem parseFromMessage_cleanRes {m : Message} (hm : CleanMsg m) :
+    CleanRes (Command.parseFromMessage m) := by
+  obtain ⟨src, cmd, ps⟩ := m
+  have hc : Clean cmd := hm.command
+  have hp : CleanL ps := hm.params
+  unfold Command.parseFromMessage
+  simp only
+  split
+  · exact asciiUpper_clean hc
+  · rename_i id _
+    cases id <;> simp only
+    all_goals (repeat' split)
+    all_goals (try simp only [cleanL_cons] at hp)
+    all_goals (try (simp [CleanRes, CleanCmd, CleanErr, splitComma_clean, CleanL.head?, *]; done))
+    all_goals first
+      | (have hpe := parseNumParam_error ‹parseNumParam _ _ _ = _›; subst hpe; simp [CleanRes, CleanErr]; done)
+      | exact fun cs h => cleanL_of_map_head hp.2 (fun _ => splitAsciiWhitespace_clean) h
+      | exact ⟨splitComma_clean hp.1, fun cs h => cleanL_of_map_head hp.2 (fun _ => splitComma_clean) h⟩
+      | exact ⟨(clean_cons.1 hp.1).1, hp.2.head?⟩
+      | exact ⟨hp.1, cleanGroups_nil⟩
+      | exact ⟨hp.1, groupModes_clean hp.2.1 cleanL_nil hp.2.2⟩
+
+theorem validationErrorToString_clean {c : Str} (h : Clean c) : Clean (validationErrorToString c) := by
+  simp (config := { decide := true }) [validationErrorToString, h]
+
+theorem validateUsernameErr_clean {u code : Str} (h : validateUsernameErr u = some code) : Clean code := by
+  unfold validateUsernameErr at h
+  repeat' split at h
+  all_goals (cases h <;> decide)
+
+theorem IntErr.render_clean (e : IntErr) : Clean e.render := by cases e <;> decide
+
+theorem chanModeChars_err {target : Str} {i : Nat} {e : CommandError} (ht : Clean target) :
+    ∀ {ms : Str} {b : Bool} {args : List Str}, Clean ms → CleanL args →
+      chanModeChars target i b args ms = .error e → CleanErr e
+  | [], _, _, _, _, h => by simp [chanModeChars] at h
+  | c :: cs, b, args, hms, hargs, h => by
+    have hc := clean_cons.1 hms
+    have ih := fun b args ha => @chanModeChars_err target i e ht cs b args hc.2 ha
+    unfold chanModeChars at h
+    repeat' split at h
+    all_goals first
+      | exact ih _ _ hargs h
+      | exact ih _ _ (hargs.drop 1) h
+      | exact ih _ _ cleanL_nil h
+      | exact ih _ _ (cleanL_cons.1 hargs).2 h
+      | (cases h; simp (config := { decide := true }) [CleanErr, ht, hc.1, noArgument, unexpectedArgument]; done)
+      | (cases h
+         simp (config := { decide := true }) [CleanErr, ht, hc.1, noArgument, unexpectedArgument, (cleanL_cons.1 hargs).1,
+           IntErr.render_clean]
+         try exact validationErrorToString_clean (validateUsernameErr_clean ‹_›))
+
+theorem validateUsermodesFrom_err {e : CommandError} : ∀ {ms : List (Str × List Str)} {i : Nat},
+    validateUsermodesFrom i ms = .error e → CleanErr e
+  | [], _, h => by simp [validateUsermodesFrom] at h
+  | (m, a) :: rest, i, h => by
+    unfold validateUsermodesFrom at h
+    repeat' split at h
+    all_goals first
+      | exact validateUsermodesFrom_err h
+      | (cases h; simp [CleanErr]; done)
+
+theorem validateChannelmodesFrom_err {target : Str} {e : CommandError} (ht : Clean target) :
+    ∀ {ms : List (Str × List Str)} {i : Nat}, CleanGroups ms →
+      validateChannelmodesFrom target i ms = .error e → CleanErr e
+  | [], _, _, h => by simp [validateChannelmodesFrom] at h
+  | (m, a) :: rest, i, hg, h => by
+    have h1 := hg (m, a) (List.mem_cons_self ..)
+    have h2 : CleanGroups rest := fun g hgm => hg g (List.mem_cons_of_mem _ hgm)
+    unfold validateChannelmodesFrom at h
+    repeat' split at h
+    all_goals first
+      | exact validateChannelmodesFrom_err ht h2 h
+      | (cases h; exact chanModeChars_err ht h1.1 h1.2 ‹_›)
+      | (cases h; simp [CleanErr]; done)
+
+theorem check_err {b : Bool} {e e' : CommandError} (h : check b e = .error e') : e' = e := by
+  unfold check at h; split at h <;> cases h; rfl
+theorem checkAll_err {f : Str → Bool} {xs : List Str} {e e' : CommandError}
+    (h : checkAll f xs e = .error e') : e' = e := check_err h
+theorem checkOpt_err {f : Str → Bool} {o : Option Str} {e e' : CommandError}
+    (h : checkOpt f o e = .error e') : e' = e := by
+  unfold checkOpt at h; split at h
+  · exact check_err h
+  · cases h
+theorem checkUserhost_err {e : CommandError} : ∀ {ns : List Str} {i : Nat},
+    checkUserhost i ns = .error e → CleanErr e
+  | [], _, h => by simp [checkUserhost] at h
+  | n :: ns, i, h => by
+    unfold checkUserhost at h
+    split at h
+    · exact checkUserhost_err h
+    · cases h; simp [CleanErr]
+
+theorem bind_err {e : CommandError} {a : Except CommandError Unit}
+    {b : Unit → Except CommandError Unit} (h : (a >>= b) = .error e) :
+    a = .error e ∨ b () = .error e := by
+  cases a with
+  | error x => left; simpa [bind, Except.bind] using h
+  | ok u => right; simpa [bind, Except.bind] using h
+
+theorem wp_clean (c : CmdId) (i : Nat) : CleanErr (.wrongParameter c i) := trivial
+
+syntax "verr " ident : tactic
+macro_rules
+  | `(tactic| verr $h:ident) => `(tactic| first
+      | (cases $h:ident; done)
+      | (rw [check_err $h]; exact wp_clean _ _)
+      | (rw [checkAll_err $h]; exact wp_clean _ _)
+      | (rw [checkOpt_err $h]; exact wp_clean _ _)
+      | exact checkUserhost_err $h
+      | (cases $h:ident; exact wp_clean _ _)
+      | (rcases bind_err $h with hL | hR
+         · verr hL
+         · verr hR))
+
+theorem validate_err {cmd : Command} {e : CommandError} (hc : CleanCmd cmd)
+    (h : cmd.validate = .error e) : CleanErr e := by
+  cases cmd <;> simp only [Command.validate] at h
+  all_goals (try (repeat' split at h))
+  all_goals first
+    | verr h
+    | exact validateChannelmodesFrom_err hc.1 hc.2 h
+    | exact validateUsermodesFrom_err h
+
+theorem fromMessage_ok {m : Message} {cmd : Command} (hm : CleanMsg m)
+    (h : Command.fromMessage m = .ok cmd) : CleanCmd cmd := by
+  have hp := parseFromMessage_cleanRes hm
+  unfold Command.fromMessage at h
+  split at h
+  · rename_i x hx
+    rw [hx] at hp
+    split at h
+    · cases h; exact hp
+    · cases h
+  · cases h
+
+theorem fromMessage_err {m : Message} {e : CommandError} (hm : CleanMsg m)
+    (h : Command.fromMessage m = .error e) : CleanErr e := by
+  have hp := parseFromMessage_cleanRes hm
+  unfold Command.fromMessage at h
+  split at h
+  · rename_i x hx
+    rw [hx] at hp
+    split at h
+    · cases h
+    · rename_i e' he'
+      cases h; exact validate_err hp he'
+  · rename_i e' he'
+    rw [he'] at hp
+    cases h; exact hp
+
+@[simp] theorem CmdId.name_clean (c : CmdId) : Clean c.name := by cases c <;> decide
+
+/-- `CommandError.render` of an error produced from a clean message is clean -/
+theorem CommandError.render_clean {e : CommandError} (he : CleanErr e) : Clean e.render := by
+  cases e <;> simp (config := { decide := true }) [CommandError.render, CleanErr] at he ⊢ <;> simp [*]
+
+theorem commandErrorReply_clean {client : Str} {e : CommandError} (hc : Clean client)
+    (he : CleanErr e) : Clean (commandErrorReply client e) := by
+  have hr := CommandError.render_clean he
+  cases e <;> simp (config := { decide := true }) [commandErrorReply, CleanErr, hc] at he hr ⊢ <;> simp [*]
+
+/-! ## 2. Maps, sets, world operations -/
+
+theorem CleanL.mem {l : List Str} (h : CleanL l) {s : Str} (hs : s ∈ l) : Clean s := h s hs
+
+theorem mem_of_lookup {α : Type} {k : Str} {v : α} : ∀ {m : Map α}, Map.lookup k m = some v → (k, v) ∈ m
+  | [], h => by cases h
+  | (k', v') :: rest, h => by
+    unfold Map.lookup at h
+    split at h
+    · rename_i hk; cases h; subst hk; exact List.mem_cons_self ..
+    · exact List.mem_cons_of_mem _ (mem_of_lookup h)
+
+section CleanMap
+variable {α : Type} {P : α → Prop}
+
+@[simp] theorem cleanMap_nil : CleanMap P ([] : Map α) := by intro p hp; cases hp
+
+theorem CleanMap.cons {k : Str} {v : α} {m : Map α} (hk : Clean k) (hv : P v) (h : CleanMap P m) :
+    CleanMap P ((k, v) :: m) := by
+  intro p hp
+  rcases List.mem_cons.1 hp with rfl | hp
+  · exact ⟨hk, hv⟩
+  · exact h p hp
+
+theorem CleanMap.tail {p : Str × α} {m : Map α} (h : CleanMap P (p :: m)) : CleanMap P m :=
+  fun q hq => h q (List.mem_cons_of_mem _ hq)
+
+theorem CleanMap.lookup {m : Map α} (h : CleanMap P m) {k : Str} {v : α}
+    (hl : Map.lookup k m = some v) : P v := (h _ (mem_of_lookup hl)).2
+
+theorem CleanMap.key_of_lookup {m : Map α} (h : CleanMap P m) {k : Str} {v : α}
+    (hl : Map.lookup k m = some v) : Clean k := (h _ (mem_of_lookup hl)).1
+
+theorem CleanMap.insert {m : Map α} (h : CleanMap P m) {k : Str} {v : α} (hk : Clean k) (hv : P v) :
+    CleanMap P (Map.insert k v m) := by
+  induction m with
+  | nil => exact CleanMap.cons hk hv cleanMap_nil
+  | cons p rest ih =>
+    obtain ⟨k', v'⟩ := p
+    unfold Map.insert
+    split
+    · exact CleanMap.cons hk hv h.tail
+    · exact CleanMap.cons (h _ (List.mem_cons_self ..)).1 (h _ (List.mem_cons_self ..)).2 (ih h.tail)
+
+theorem CleanMap.erase {m : Map α} (h : CleanMap P m) (k : Str) : CleanMap P (Map.erase k m) := by
+  induction m with
+  | nil => exact cleanMap_nil
+  | cons p rest ih =>
+    obtain ⟨k', v'⟩ := p
+    unfold Map.erase
+    split
+    · exact ih h.tail
+    · exact CleanMap.cons (h _ (List.mem_cons_self ..)).1 (h _ (List.mem_cons_self ..)).2 (ih h.tail)
+
+theorem CleanMap.modify {m : Map α} (h : CleanMap P m) (k : Str) {f : α → α}
+    (hf : ∀ v, P v → P (f v)) : CleanMap P (Map.modify k f m) := by
+  induction m with
+  | nil => exact cleanMap_nil
+  | cons p rest ih =>
+    obtain ⟨k', v'⟩ := p
+    have h0 := h _ (List.mem_cons_self ..)
+    unfold Map.modify
+    split
+    · exact CleanMap.cons h0.1 (hf _ h0.2) h.tail
+    · exact CleanMap.cons h0.1 h0.2 (ih h.tail)
+
+theorem CleanMap.keys {m : Map α} (h : CleanMap P m) : CleanL (Map.keys m) := by
+  intro s hs
+  simp only [Map.keys, List.mem_map] at hs
+  obtain ⟨p, hp, rfl⟩ := hs
+  exact (h p hp).1
+
+theorem CleanMap.mem_key {m : Map α} (h : CleanMap P m) {p : Str × α} (hp : p ∈ m) : Clean p.1 := (h p hp).1
+theorem CleanMap.mem_val {m : Map α} (h : CleanMap P m) {p : Str × α} (hp : p ∈ m) : P p.2 := (h p hp).2
+theorem CleanMap.mem_key' {m : Map α} (h : CleanMap P m) {k : Str} {v : α} (hp : (k, v) ∈ m) : Clean k := (h _ hp).1
+theorem CleanMap.mem_val' {m : Map α} (h : CleanMap P m) {k : Str} {v : α} (hp : (k, v) ∈ m) : P v := (h _ hp).2
+end CleanMap
+
+theorem CleanL.kinsert {s : KSet} (h : CleanL s) {k : Str} (hk : Clean k) : CleanL (KSet.insert k s) := by
+  unfold KSet.insert
+  split
+  · exact h
+  · exact cleanL_append.2 ⟨h, cleanL_cons.2 ⟨hk, cleanL_nil⟩⟩
+theorem CleanL.kerase {s : KSet} (h : CleanL s) (k : Str) : CleanL (KSet.erase k s) := h.filter _
+
+/-! ### misc renderings -/
+
+theorem prefixStr_clean (m : ChanUserModes) (b : Bool) : Clean (m.prefixStr b) := by
+  unfold ChanUserModes.prefixStr
+  simp only
+  repeat' split
+  all_goals simp (config := { decide := true })
+
+theorem UserModes.render_clean (m : UserModes) : Clean m.render := by
+  unfold UserModes.render UserModes.letters
+  simp only [clean_cons, clean_append]
+  refine ⟨by decide, ?_⟩
+  repeat' constructor
+  all_goals (split <;> simp (config := { decide := true }))
+
+theorem flagLetters_clean (m : ChannelModes) : Clean m.flagLetters := by
+  unfold ChannelModes.flagLetters
+  simp only [clean_append]
+  repeat' constructor
+  all_goals (split <;> simp (config := { decide := true }))
+
+theorem foldl_tag_clean {tag : Str} (ht : Clean tag) : ∀ {xs : List Str} {s : Str}, CleanL xs → Clean s →
+    Clean (xs.foldl (fun s e => s ++ tag ++ e) s)
+  | [], _, _, hs => hs
+  | e :: xs, s, hx, hs => by
+    have hx' := cleanL_cons.1 hx
+    simp only [List.foldl_cons]
+    exact foldl_tag_clean ht hx'.2 (clean_append.2 ⟨clean_append.2 ⟨hs, ht⟩, hx'.1⟩)
+
+theorem ChannelModes.render_clean {m : ChannelModes} (h : CleanModes m) : Clean m.render := by
+  unfold ChannelModes.render
+  simp only
+  refine foldl_tag_clean (by decide) h.voices ?_
+  refine foldl_tag_clean (by decide) h.halfOperators ?_
+  refine foldl_tag_clean (by decide) h.operators ?_
+  refine foldl_tag_clean (by decide) h.protecteds ?_
+  refine foldl_tag_clean (by decide) h.founders ?_
+  refine foldl_tag_clean (by decide) h.inviteException ?_
+  refine foldl_tag_clean (by decide) h.exception ?_
+  refine foldl_tag_clean (by decide) h.ban ?_
+  have hk := h.key
+  have hf := flagLetters_clean m
+  cases hkey : m.key with
+  | none => cases m.clientLimit <;> simp (config := { decide := true }) [hf]
+  | some k =>
+    rw [hkey] at hk
+    have := cleanO_some.1 hk
+    cases m.clientLimit <;> simp (config := { decide := true }) [hf, this]
+
+theorem insertSorted_clean {x : Str} (hx : Clean x) : ∀ {l : List Str}, CleanL l → CleanL (insertSorted x l)
+  | [], _ => cleanL_cons.2 ⟨hx, cleanL_nil⟩
+  | y :: ys, h => by
+    have h' := cleanL_cons.1 h
+    unfold insertSorted
+    split
+    · exact cleanL_cons.2 ⟨hx, h⟩
+    · exact cleanL_cons.2 ⟨h'.1, insertSorted_clean hx h'.2⟩
+
+theorem sortStrs_clean : ∀ {l : List Str}, CleanL l → CleanL (sortStrs l)
+  | [], _ => by simp [sortStrs]
+  | x :: xs, h => by
+    have h' := cleanL_cons.1 h
+    simp only [sortStrs, List.foldr_cons]
+    exact insertSorted_clean h'.1 (sortStrs_clean h'.2)
+
+theorem mem_chunksAux {α : Type} {n : Nat} : ∀ {fuel : Nat} {xs : List α} {ch : List α} {a : α},
+    ch ∈ chunksAux n fuel xs → a ∈ ch → a ∈ xs
+  | 0, _, _, _, h, _ => by simp [chunksAux] at h
+  | fuel + 1, [], _, _, h, _ => by simp [chunksAux] at h
+  | fuel + 1, x :: xs, ch, a, h, ha => by
+    unfold chunksAux at h
+    rcases List.mem_cons.1 h with rfl | h
+    · exact List.mem_of_mem_take ha
+    · exact List.mem_of_mem_drop (mem_chunksAux h ha)
+
+theorem mem_chunks {α : Type} {n : Nat} {xs ch : List α} {a : α} (h : ch ∈ chunks n xs) (ha : a ∈ ch) :
+    a ∈ xs := by
+  unfold chunks at h
+  split at h
+  · cases h
+  · exact mem_chunksAux h ha
+
+theorem chunks_cleanL {n : Nat} {xs ch : List Str} (hx : CleanL xs) (h : ch ∈ chunks n xs) : CleanL ch :=
+  fun _ hs => hx _ (mem_chunks h hs)
+
+theorem supportTokens_clean {cfg : Cfg} (h : CleanCfg cfg) : CleanL (supportTokens cfg) := by
+  unfold supportTokens
+  simp only [cleanL_append, cleanL_cons, cleanL_nil, clean_append, h.network, and_true]
+  refine ⟨⟨⟨⟨by decide, ?_⟩, by decide⟩, by decide⟩, by decide⟩
+  split <;> simp (config := { decide := true })
+
+theorem helpTopics_clean {t content : Str} (_h : (t, content) ∈ helpTopics) :
+    CleanL (splitTerminator content) := splitTerminator_clean _
+
+/-! ### connections -/
+
+theorem CleanConn.of_eq {cn cn' : Conn} (h : CleanConn cn) (e1 : cn'.hostname = cn.hostname)
+    (e2 : cn'.nick = cn.nick) (e3 : cn'.name = cn.name) (e4 : cn'.realname = cn.realname)
+    (e5 : cn'.password = cn.password) (e6 : cn'.source = cn.source)
+    (e7 : cn'.killedBy = cn.killedBy) : CleanConn cn' :=
+  ⟨e1 ▸ h.hostname, e2 ▸ h.nick, e3 ▸ h.name, e4 ▸ h.realname, e5 ▸ h.password, e6 ▸ h.source,
+   e7 ▸ h.killedBy⟩
+
+/-- a connection record that differs from a clean one only in flags -/
+macro "conn_frame" : tactic =>
+  `(tactic| (refine CleanConn.of_eq (by assumption) ?_ ?_ ?_ ?_ ?_ ?_ ?_ <;> rfl))
+
+theorem Conn.new_clean (c : Nat) {ip : Str} (hip : Clean ip) : CleanConn (Conn.new c ip) := by
+  refine ⟨hip, ?_, ?_, ?_, ?_, ?_, ?_⟩ <;> simp (config := { decide := true }) [Conn.new, hip]
+
+theorem clientName_clean {cn : Conn} (h : CleanConn cn) : Clean cn.clientName := by
+  unfold Conn.clientName
+  split
+  · exact h.nick _ ‹_›
+  · split
+    · exact h.name _ ‹_›
+    · exact h.hostname
+
+theorem updateSource_clean {cn : Conn} (h : CleanConn cn) : CleanConn cn.updateSource := by
+  have hs : Clean cn.updateSource.source := by
+    unfold Conn.updateSource
+    simp only [clean_append, clean_cons, h.hostname, and_true]
+    refine ⟨⟨?_, ?_⟩, by decide⟩
+    · split
+      · exact clean_append.2 ⟨h.nick _ ‹_›, by decide⟩
+      · exact clean_nil
+    · split
+      · exact clean_cons.2 ⟨by decide, h.name _ ‹_›⟩
+      · exact clean_nil
+  exact ⟨h.hostname, h.nick, h.name, h.realname, h.password, hs, h.killedBy⟩
+
+theorem setNick_clean {cn : Conn} (h : CleanConn cn) {n : Str} (hn : Clean n) : CleanConn (cn.setNick n) := by
+  unfold Conn.setNick
+  exact updateSource_clean ⟨h.hostname, cleanO_some.2 hn, h.name, h.realname, h.password, h.source, h.killedBy⟩
+
+theorem setName_clean {cn : Conn} (h : CleanConn cn) {n : Str} (hn : Clean n) : CleanConn (cn.setName n) := by
+  unfold Conn.setName
+  exact updateSource_clean ⟨h.hostname, h.nick, cleanO_some.2 hn, h.realname, h.password, h.source, h.killedBy⟩
+
+/-! ### world -/
+
+theorem CleanWorld.of_eq {w w' : World} (h : CleanWorld w) (e1 : w'.users = w.users)
+    (e2 : w'.channels = w.channels) (e3 : w'.wallops = w.wallops) (e4 : w'.histories = w.histories)
+    (e5 : w'.conns = w.conns) : CleanWorld w' :=
+  ⟨e1 ▸ h.users, e2 ▸ h.channels, e3 ▸ h.wallops, e4 ▸ h.histories, e5 ▸ h.conns⟩
+
+/-- a world that differs from a clean one only in counters / flags -/
+macro "world_frame" : tactic =>
+  `(tactic| (refine CleanWorld.of_eq (by assumption) ?_ ?_ ?_ ?_ ?_ <;> rfl))
+
+theorem cw_users {w : World} (h : CleanWorld w) {us : Map User} (hu : CleanMap CleanUser us) :
+    CleanWorld { w with users := us } := ⟨hu, h.channels, h.wallops, h.histories, h.conns⟩
+theorem cw_channels {w : World} (h : CleanWorld w) {cs : Map Channel} (hc : CleanMap CleanChan cs) :
+    CleanWorld { w with channels := cs } := ⟨h.users, hc, h.wallops, h.histories, h.conns⟩
+theorem cw_wallops {w : World} (h : CleanWorld w) {ws : KSet} (hw : CleanL ws) :
+    CleanWorld { w with wallops := ws } := ⟨h.users, h.channels, hw, h.histories, h.conns⟩
+theorem cw_histories {w : World} (h : CleanWorld w) {hs : Map (List HistEntry)}
+    (hh : CleanMap (fun h => ∀ e ∈ h, CleanHist e) hs) :
+    CleanWorld { w with histories := hs } := ⟨h.users, h.channels, h.wallops, hh, h.conns⟩
+
+theorem cw_panic {w : World} (h : CleanWorld w) (s : String) : CleanWorld (w.panic s) :=
+  h.of_eq rfl rfl rfl rfl rfl
+
+theorem cw_conn? {w : World} (h : CleanWorld w) {c : Nat} {cn : Conn} (hc : w.conn? c = some cn) :
+    CleanConn cn := h.conns cn (List.mem_of_find?_eq_some hc)
+
+theorem cw_setConn {w : World} (h : CleanWorld w) {cn : Conn} (hc : CleanConn cn) :
+    CleanWorld (w.setConn cn) := by
+  refine ⟨h.users, h.channels, h.wallops, h.histories, ?_⟩
+  intro x hx
+  simp only [World.setConn, List.mem_map] at hx
+  obtain ⟨y, hy, rfl⟩ := hx
+  split
+  · exact hc
+  · exact h.conns y hy
+
+theorem cw_user {w : World} (h : CleanWorld w) {k : Str} {u : User}
+    (hl : Map.lookup k w.users = some u) : CleanUser u := h.users.lookup hl
+theorem cw_chan {w : World} (h : CleanWorld w) {k : Str} {ch : Channel}
+    (hl : Map.lookup k w.channels = some ch) : CleanChan ch := h.channels.lookup hl
+theorem cw_hist {w : World} (h : CleanWorld w) {k : Str} {hs : List HistEntry}
+    (hl : Map.lookup k w.histories = some hs) : ∀ e ∈ hs, CleanHist e := h.histories.lookup hl
+
+theorem bumpCount_clean {w : World} (h : CleanWorld w) (i : Nat) : CleanWorld (bumpCount w i) :=
+  h.of_eq rfl rfl rfl rfl rfl
+
+/-! ## 3. Context operations -/
+
+theorem cc_conn {x : Ctx} (hx : CleanCtx x) (c : Nat) : CleanConn (x.conn c) := by
+  unfold Ctx.conn
+  cases h : x.w.conn? c with
+  | none => exact Conn.new_clean c clean_nil
+  | some cn => exact cw_conn? hx.w h
+
+theorem cc_clientName {x : Ctx} (hx : CleanCtx x) (c : Nat) : Clean (x.conn c).clientName :=
+  clientName_clean (cc_conn hx c)
+
+theorem line_clean {a t : Str} (ha : Clean a) (ht : Clean t) : Clean (':' :: (a ++ ' ' :: t)) := by
+  simp (config := { decide := true }) [ha, ht]
+
+theorem cc_reply {cfg : Cfg} {x : Ctx} {t : Str} (hcfg : CleanCfg cfg) (hx : CleanCtx x)
+    (ht : Clean t) : CleanCtx (x.reply cfg t) :=
+  ⟨hx.w, cleanL_append.2 ⟨hx.direct, cleanL_cons.2 ⟨line_clean hcfg.name ht, cleanL_nil⟩⟩, hx.queued⟩
+
+theorem cc_replySrc {x : Ctx} {src t : Str} (hx : CleanCtx x) (hs : Clean src)
+    (ht : Clean t) : CleanCtx (x.replySrc src t) :=
+  ⟨hx.w, cleanL_append.2 ⟨hx.direct, cleanL_cons.2 ⟨line_clean hs ht, cleanL_nil⟩⟩, hx.queued⟩
+
+theorem cc_panic {x : Ctx} (hx : CleanCtx x) (s : String) : CleanCtx (x.panic s) :=
+  ⟨cw_panic hx.w s, hx.direct, hx.queued⟩
+
+theorem cc_send {x : Ctx} {nick line : Str} (hx : CleanCtx x) (hl : Clean line) :
+    CleanCtx (x.send nick line) := by
+  unfold Ctx.send
+  split
+  · refine ⟨hx.w, hx.direct, ?_⟩
+    intro p hp
+    rcases List.mem_append.1 hp with hp | hp
+    · exact hx.queued p hp
+    · simp only [List.mem_singleton] at hp; subst hp; exact hl
+  · exact ⟨cw_panic hx.w _, hx.direct, hx.queued⟩
+
+theorem cc_sendDisplay {x : Ctx} {nick src t : Str} (hx : CleanCtx x) (hs : Clean src)
+    (ht : Clean t) : CleanCtx (x.sendDisplay nick src t) := cc_send hx (line_clean hs ht)
+
+theorem cc_foldl {α : Type} {f : Ctx → α → Ctx} {l : List α}
+    (hf : ∀ x a, a ∈ l → CleanCtx x → CleanCtx (f x a)) {x : Ctx} (hx : CleanCtx x) :
+    CleanCtx (l.foldl f x) := by
+  induction l generalizing x with
+  | nil => exact hx
+  | cons a l ih =>
+    simp only [List.foldl_cons]
+    exact ih (fun x b hb => hf x b (List.mem_cons_of_mem _ hb)) (hf x a (List.mem_cons_self ..) hx)
+
+theorem cc_sendAll {x : Ctx} {nicks : List Str} {line : Str} (hx : CleanCtx x) (hl : Clean line) :
+    CleanCtx (x.sendAll nicks line) := cc_foldl (fun _ _ _ h => cc_send h hl) hx
+
+theorem cc_setConn {x : Ctx} {cn : Conn} (hx : CleanCtx x) (hc : CleanConn cn) :
+    CleanCtx (x.setConn cn) := ⟨cw_setConn hx.w hc, hx.direct, hx.queued⟩
+
+theorem cc_modifyW {x : Ctx} {f : World → World} (hx : CleanCtx x) (hf : CleanWorld (f x.w)) :
+    CleanCtx (x.modifyW f) := ⟨hf, hx.direct, hx.queued⟩
+
+/-- world-only change of a context record -/
+theorem cc_withW {x : Ctx} {w : World} (hx : CleanCtx x) (hw : CleanWorld w) :
+    CleanCtx { x with w := w } := ⟨hw, hx.direct, hx.queued⟩
+
+/-! ## 4. Tactics for the handler proofs -/
+
+theorem CleanL.mem' {l : List Str} {s : Str} (hs : s ∈ l) (h : CleanL l) : Clean s := h s hs
+theorem CleanO.of_eq' {o : Option Str} {s : Str} (e : o = some s) (h : CleanO o) : Clean s := h s e
+theorem cw_user' {w : World} {k : Str} {u : User} (hl : Map.lookup k w.users = some u)
+    (h : CleanWorld w) : CleanUser u := cw_user h hl
+theorem cw_chan' {w : World} {k : Str} {ch : Channel} (hl : Map.lookup k w.channels = some ch)
+    (h : CleanWorld w) : CleanChan ch := cw_chan h hl
+theorem cw_userKey' {w : World} {k : Str} {u : User} (hl : Map.lookup k w.users = some u)
+    (h : CleanWorld w) : Clean k := h.users.key_of_lookup hl
+theorem cw_chanKey' {w : World} {k : Str} {ch : Channel} (hl : Map.lookup k w.channels = some ch)
+    (h : CleanWorld w) : Clean k := h.channels.key_of_lookup hl
+theorem CleanChan.topic' {ch : Channel} {t : Topic} (e : ch.topic = some t) (h : CleanChan ch) :
+    CleanTopic t := h.topic t e
+theorem CleanMap.memKey' {α : Type} {P : α → Prop} {m : Map α} {k : Str} {v : α} (hp : (k, v) ∈ m)
+    (h : CleanMap P m) : Clean k := (h _ hp).1
+theorem cw_memUser' {w : World} {k : Str} {u : User} (hp : (k, u) ∈ w.users) (h : CleanWorld w) :
+    CleanUser u := (h.users _ hp).2
+theorem cw_memChan' {w : World} {k : Str} {ch : Channel} (hp : (k, ch) ∈ w.channels)
+    (h : CleanWorld w) : CleanChan ch := (h.channels _ hp).2
+theorem CleanUser.awayOf {u : User} {a : Str} (e : u.away = some a) (h : CleanUser u) : Clean a :=
+  h.away a e
+
+@[simp] theorem joinWith_space_clean' {l : List Str} : Clean (joinWith [' '] l) ↔ CleanL l :=
+  joinWith_clean_iff (by decide)
+@[simp] theorem joinWith_comma_clean' {l : List Str} : Clean (joinWith [','] l) ↔ CleanL l :=
+  joinWith_clean_iff (by decide)
+theorem chunks_cleanL' {n : Nat} {xs ch : List Str} (h : ch ∈ chunks n xs) (hx : CleanL xs) : CleanL ch :=
+  chunks_cleanL hx h
+
+/-- split a `Clean` goal about a concatenation / reply into atomic `Clean` goals;
+    literal pieces are decided -/
+macro "clean_simp" : tactic => `(tactic|
+  simp only [clean_nil, clean_cons, clean_append, cleanO_none,
+      cleanO_some, cleanL_nil, cleanL_cons, cleanL_append, natToStr_clean, padZero_clean,
+      joinWith_space_clean, joinWith_space_clean', joinWith_comma_clean', cleanL_map, CmdId.name_clean, ne_eq, not_false_eq_true, true_and,
+      and_true, and_self, List.cons_append, List.nil_append, List.append_assoc,
+      RplWelcome001_clean, RplYourHost002_clean, RplCreated003_clean, RplMyInfo004_clean, RplISupport005_clean,
+      RplStatsCommands212_clean, RplEndOfStats219_clean, RplUModeIs221_clean, RplStatsUptime242_clean, RplLUserClient251_clean,
+      RplLUserOp252_clean, RplLUserUnknown253_clean, RplLUserChannels254_clean, RplLUserMe255_clean, RplAdminMe256_clean,
+      RplAdminLoc1257_clean, RplAdminLoc2258_clean, RplAdminEmail259_clean, RplLocalUsers265_clean, RplGlobalUsers266_clean,
+      RplAway301_clean, RplUserHost302_clean, RplIson303_clean, RplUnAway305_clean, RplNowAway306_clean,
+      RplWhoReply352_clean, RplEndOfWho315_clean, RplWhoIsRegNick307_clean, RplWhoIsUser311_clean, RplWhoIsServer312_clean,
+      RplWhoIsOperator313_clean, RplWhoWasUser314_clean, RplwhoIsIdle317_clean, RplEndOfWhoIs318_clean, RplWhoIsChannels319_clean,
+      RplListStart321_clean, RplList322_clean, RplListEnd323_clean, RplChannelModeIs324_clean, RplCreationTime329_clean,
+      RplNoTopic331_clean, RplTopic332_clean, RplTopicWhoTime333_clean, RplInviting341_clean, RplInviteList346_clean,
+      RplEndOfInviteList347_clean, RplExceptList348_clean, RplEndOfExceptList349_clean, RplVersion351_clean, RplNameReply353_clean,
+      RplEndOfNames366_clean, RplLinks364_clean, RplEndOfLinks365_clean, RplBanList367_clean, RplEndOfBanList368_clean,
+      RplEndOfWhoWas369_clean, RplInfo371_clean, RplEndOfInfo374_clean, RplMotdStart375_clean, RplMotd372_clean,
+      RplEndOfMotd376_clean, RplWhoIsHost378_clean, RplWhoIsModes379_clean, RplYoureOper381_clean, RplTime391_clean,
+      ErrUnknownError400_clean, ErrNoSuchNick401_clean, ErrNoSuchChannel403_clean, ErrCannotSendToChain404_clean, ErrTooManyChannels405_clean,
+      ErrWasNoSuchNick406_clean, ErrInputTooLong417_clean, ErrUnknownCommand421_clean, ErrNicknameInUse433_clean, ErrUserNotInChannel441_clean,
+      ErrNotOnChannel442_clean, ErrUserOnChannel443_clean, ErrNotRegistered451_clean, ErrNeedMoreParams461_clean, ErrAlreadyRegistered462_clean,
+      ErrPasswdMismatch464_clean, ErrChannelIsFull471_clean, ErrUnknownMode472_clean, ErrInviteOnlyChan473_clean, ErrBannedFromChan474_clean,
+      ErrBadChannelKey475_clean, ErrNoPrivileges481_clean, ErrChanOpPrivsNeeded482_clean, ErrCantKillServer483_clean, ErrYourConnRestricted484_clean,
+      ErrNoOperHost491_clean, ErrUmodeUnknownFlag501_clean, ErrUsersDontMatch502_clean, ErrHelpNotFound524_clean, RplWhoIsSecure671_clean,
+      ErrInvalidModeParam696_clean, RplHelpStart704_clean, RplHelpTxt705_clean, RplEndOfHelp706_clean, ErrCannotDoCommand972_clean])
+
+/-! goal-directed fact providers: each is a short, deterministic `first` chain (no search) -/
+
+/-- `CleanWorld ?w` -/
+syntax "cwf" : tactic
+macro_rules | `(tactic| cwf) => `(tactic| first
+  | assumption
+  | exact CleanCtx.w (by assumption))
+
+/-- `CleanConn ?cn` -/
+syntax "cconn" : tactic
+macro_rules | `(tactic| cconn) => `(tactic| first
+  | assumption
+  | exact cc_conn (by assumption) _
+  | exact cw_conn? (by cwf) (by assumption)
+  | exact setName_clean (by first | assumption | exact cc_conn (by assumption) _) (by assumption)
+  | exact setNick_clean (by first | assumption | exact cc_conn (by assumption) _) (by assumption))
+
+/-- `CleanUser ?u` -/
+syntax "cuser" : tactic
+macro_rules | `(tactic| cuser) => `(tactic| first
+  | assumption
+  | exact cw_user' (by assumption) (by cwf)
+  | exact cw_memUser' (by assumption) (by cwf))
+
+/-- `CleanChan ?ch` -/
+syntax "cchan" : tactic
+macro_rules | `(tactic| cchan) => `(tactic| first
+  | assumption
+  | exact cw_chan' (by assumption) (by cwf)
+  | exact cw_memChan' (by assumption) (by cwf))
+
+/-- `CleanTopic ?t` -/
+syntax "ctopic" : tactic
+macro_rules | `(tactic| ctopic) => `(tactic| first
+  | assumption
+  | exact CleanChan.topic' (by assumption) (by cchan))
+
+/-- `CleanMap ?P ?m` -/
+syntax "cmap" : tactic
+macro_rules | `(tactic| cmap) => `(tactic| first
+  | assumption
+  | exact CleanWorld.users (by cwf)
+  | exact CleanWorld.channels (by cwf)
+  | exact CleanWorld.histories (by cwf)
+  | exact CleanChan.users (by cchan)
+  | exact CleanChan.banInfo (by cchan))
+
+/-- `CleanModes ?m` -/
+syntax "cmodes" : tactic
+macro_rules | `(tactic| cmodes) => `(tactic| first
+  | assumption
+  | exact CleanChan.modes (by cchan))
+
+/-- `CleanL ?l` -/
+syntax "clist" : tactic
+macro_rules | `(tactic| clist) => `(tactic| first
+  | assumption
+  | exact CleanUser.channels (by cuser)
+  | exact CleanUser.invitedTo (by cuser)
+  | exact CleanModes.ban (by cmodes)
+  | exact CleanModes.exception (by cmodes)
+  | exact CleanModes.inviteException (by cmodes)
+  | exact CleanModes.operators (by cmodes)
+  | exact CleanModes.halfOperators (by cmodes)
+  | exact CleanModes.voices (by cmodes)
+  | exact CleanModes.founders (by cmodes)
+  | exact CleanModes.protecteds (by cmodes)
+  | exact CleanDefault.operators (CleanChan.defaultModes (by cchan))
+  | exact CleanDefault.halfOperators (CleanChan.defaultModes (by cchan))
+  | exact CleanDefault.voices (CleanChan.defaultModes (by cchan))
+  | exact CleanDefault.founders (CleanChan.defaultModes (by cchan))
+  | exact CleanDefault.protecteds (CleanChan.defaultModes (by cchan))
+  | exact CleanWorld.wallops (by cwf)
+  | exact CleanMap.keys (by cmap)
+  | exact CleanMsg.params (by assumption)
+  | exact chunks_cleanL' (by assumption) (by clist)
+  | exact CleanL.filter (by clist) _)
+
+/-- `CleanO ?o` -/
+syntax "copt" : tactic
+macro_rules | `(tactic| copt) => `(tactic| first
+  | assumption
+  | exact cleanO_none
+  | exact CleanConn.nick (by cconn)
+  | exact CleanConn.name (by cconn)
+  | exact CleanConn.realname (by cconn)
+  | exact CleanConn.password (by cconn)
+  | exact CleanUser.away (by cuser)
+  | exact CleanModes.key (by cmodes)
+  | exact CleanCfg.adminInfo2 (by assumption)
+  | exact CleanCfg.adminEmail (by assumption)
+  | exact CleanMsg.source (by assumption)
+  | exact CleanL.head? (by clist))
+
+/-- an atomic `Clean s` goal: a stored / configured / received string -/
+syntax "ca" : tactic
+macro_rules | `(tactic| ca) => `(tactic| with_reducible first
+  | assumption
+  | exact clean_nil
+  | exact natToStr_clean _
+  | exact CleanO.of_eq' (by assumption) (by copt)
+  | exact CleanO.getD (by copt) (by first | exact clean_nil | assumption | decide)
+  | exact clientName_clean (by cconn)
+  | exact CleanConn.hostname (by cconn)
+  | exact CleanConn.source (by cconn)
+  | exact CleanUser.hostname (by cuser)
+  | exact CleanUser.name (by cuser)
+  | exact CleanUser.realname (by cuser)
+  | exact CleanUser.source (by cuser)
+  | exact CleanHist.username (CleanUser.history (by cuser))
+  | exact CleanHist.hostname (CleanUser.history (by cuser))
+  | exact CleanHist.realname (CleanUser.history (by cuser))
+  | exact CleanHist.username (by assumption)
+  | exact CleanHist.hostname (by assumption)
+  | exact CleanHist.realname (by assumption)
+  | exact CleanTopic.topic (by ctopic)
+  | exact CleanTopic.nick (by ctopic)
+  | exact CleanCfg.name (by assumption)
+  | exact CleanCfg.network (by assumption)
+  | exact CleanCfg.info (by assumption)
+  | exact CleanCfg.adminInfo (by assumption)
+  | exact CleanCfg.motd (by assumption)
+  | exact CleanMsg.command (by assumption)
+  | exact CleanMsg.render (by assumption) (by first | assumption | exact CleanConn.source (by cconn))
+  | exact cw_userKey' (by assumption) (by cwf)
+  | exact cw_chanKey' (by assumption) (by cwf)
+  | exact CleanMap.memKey' (by assumption) (by cmap)
+  | exact CleanL.mem' (by assumption) (by clist)
+  | exact prefixStr_clean _ _
+  | exact UserModes.render_clean _
+  | exact ChannelModes.render_clean (by cmodes)
+  | exact normalizeSourcemask_clean (by assumption)
+  | decide)
+
+/-- close (or at least decompose) the non-`CleanCtx` side goals -/
+macro "clean_side" : tactic => `(tactic|
+  ((try clean_simp) <;> (try (repeat' apply And.intro)) <;>
+    (first | ca | (with_reducible refine clientName_clean ?_; conn_frame) | clist | copt | skip)))
+
+/-- one backward step on a `CleanCtx` / `CleanWorld` / `CleanMap` / `CleanL` / record goal.
+    Extended with one rule per proved handler / world operation. -/
+syntax "cc_step" : tactic
+macro_rules | `(tactic| cc_step) => `(tactic| first
+  | with_reducible assumption
+  -- contexts
+  | with_reducible refine cc_panic ?_ _
+  | with_reducible refine cc_reply ‹CleanCfg _› ?_ ?_
+  | with_reducible refine cc_replySrc ?_ ?_ ?_
+  | with_reducible refine cc_sendDisplay ?_ ?_ ?_
+  | with_reducible refine cc_send ?_ ?_
+  | with_reducible refine cc_sendAll ?_ ?_
+  | with_reducible refine cc_setConn ?_ ?_
+  | (with_reducible refine cc_modifyW ?_ ?_) <;> (try dsimp only)
+  | with_reducible refine cc_foldl (fun _ _ _ _ => ?_) ?_
+  | (show CleanCtx _; split)
+  -- worlds
+  | exact CleanCtx.w (by assumption)
+  | with_reducible refine cw_panic ?_ _
+  | with_reducible refine cw_setConn ?_ ?_
+  | with_reducible refine CleanCtx.w ?_
+  | (show CleanWorld _; split)
+  | (show CleanWorld _; refine ⟨?_, ?_, ?_, ?_, ?_⟩ <;> (try dsimp only))
+  | exact CleanWorld.conns (by cwf)
+  -- maps and sets
+  | with_reducible refine CleanMap.insert ?_ ?_ ?_
+  | with_reducible refine CleanMap.erase ?_ _
+  | with_reducible refine CleanMap.modify ?_ _ (fun _ _ => ?_)
+  | with_reducible refine CleanL.kinsert ?_ ?_
+  | with_reducible refine CleanL.kerase ?_ _
+  | with_reducible refine CleanL.filter ?_ _
+  | (show CleanMap _ _; with_reducible cmap)
+  | (show CleanL _; with_reducible clist)
+  | with_reducible refine CleanWorld.users ?_
+  | with_reducible refine CleanWorld.channels ?_
+  | with_reducible refine CleanWorld.wallops ?_
+  | with_reducible refine CleanWorld.histories ?_
+  | with_reducible refine CleanWorld.conns ?_
+  | (show CleanMap _ _; split)
+  | (show CleanL _; split)
+  -- records
+  | exact CleanConn.killedBy (by cconn)
+  | exact CleanChan.topic (by cchan)
+  | (show CleanConn _; split)
+  | (show Clean _; split)
+  | (show CleanO _; split)
+  | conn_frame
+  | with_reducible refine setNick_clean ?_ ?_
+  | with_reducible refine setName_clean ?_ ?_
+  | (show CleanConn _; with_reducible cconn)
+  | (show CleanConn _; refine ⟨?_, ?_, ?_, ?_, ?_, ?_, ?_⟩ <;> (try dsimp only))
+  | (show CleanUser _; with_reducible cuser)
+  | (show CleanUser _; refine ⟨?_, ?_, ?_, ?_, ?_, ?_, ?_, ?_⟩ <;> (try dsimp only))
+  | (show CleanHist _; with_reducible first | assumption | exact CleanUser.history (by cuser))
+  | (show CleanHist _; refine ⟨?_, ?_, ?_⟩ <;> (try dsimp only))
+  | (show CleanChan _; with_reducible cchan)
+  | (show CleanChan _; refine ⟨?_, ?_, ?_, ?_, ?_⟩ <;> (try dsimp only))
+  | (show CleanModes _; with_reducible cmodes)
+  | (show CleanModes _; refine ⟨?_, ?_, ?_, ?_, ?_, ?_, ?_, ?_, ?_⟩ <;> (try dsimp only))
+  | (show CleanDefault _; exact CleanChan.defaultModes (by cchan))
+  | (show CleanTopic _; with_reducible ctopic)
+  | (show CleanTopic _; refine ⟨?_, ?_⟩ <;> (try dsimp only)))
+
+macro "cc" : tactic => `(tactic| ((repeat' cc_step) <;> (try clean_side)))
+
+/-! ## 5. HConn -/
+
+theorem cc_sendIsupport {cfg : Cfg} {client : Str} {x : Ctx} (hcfg : CleanCfg cfg)
+    (hc : Clean client) (hx : CleanCtx x) : CleanCtx (sendIsupport cfg client x) := by
+  have := sortStrs_clean (supportTokens_clean hcfg)
+  unfold sendIsupport
+  cc
+macro_rules | `(tactic| cc_step) => `(tactic| with_reducible refine cc_sendIsupport ‹CleanCfg _› ?_ ?_)
+
+theorem cc_processLusers {cfg : Cfg} {client : Str} {x : Ctx} (hcfg : CleanCfg cfg)
+    (hc : Clean client) (hx : CleanCtx x) : CleanCtx (processLusers cfg client x) := by
+  unfold processLusers
+  dsimp only
+  cc
+macro_rules | `(tactic| cc_step) => `(tactic| with_reducible refine cc_processLusers ‹CleanCfg _› ?_ ?_)
+
+theorem cc_unsupported {cfg : Cfg} {client : Str} {command : String} {x : Ctx} (hcfg : CleanCfg cfg)
+    (hc : Clean client) (hcmd : Clean command.toList) (hx : CleanCtx x) :
+    CleanCtx (unsupported cfg client command x) := by
+  unfold unsupported
+  cc
+macro_rules | `(tactic| cc_step) => `(tactic| with_reducible refine cc_unsupported ‹CleanCfg _› ?_ (by decide) ?_)
+
+theorem cc_processMotd {cfg : Cfg} {client : Str} {target : Option Str} {x : Ctx} (hcfg : CleanCfg cfg)
+    (hc : Clean client) (hx : CleanCtx x) : CleanCtx (processMotd cfg client target x) := by
+  unfold processMotd
+  cc
+macro_rules | `(tactic| cc_step) => `(tactic| with_reducible refine cc_processMotd ‹CleanCfg _› ?_ ?_)
+
+theorem cc_welcomeBurst {cfg : Cfg} {cn : Conn} {umodes : Str} {x : Ctx} (hcfg : CleanCfg cfg)
+    (hcn : CleanConn cn) (hu : Clean umodes) (hx : CleanCtx x) :
+    CleanCtx (welcomeBurst cfg cn umodes x) := by
+  unfold welcomeBurst
+  dsimp only
+  cc
+
+
+macro_rules | `(tactic| cc_step) => `(tactic| with_reducible refine cc_welcomeBurst ‹CleanCfg _› ?_ ?_ ?_)
+
+/-! ### registration -/
+
+theorem addUser_clean {w : World} {nick : Str} {u : User} (h : CleanWorld w) (hn : Clean nick)
+    (hu : CleanUser u) : CleanWorld (w.addUser nick u) := by
+  unfold World.addUser
+  dsimp only
+  repeat' split
+  all_goals first
+    | exact ⟨h.users.insert hn hu, h.channels, h.wallops.kinsert hn, h.histories, h.conns⟩
+    | exact ⟨h.users.insert hn hu, h.channels, h.wallops, h.histories, h.conns⟩
+macro_rules | `(tactic| cc_step) => `(tactic| with_reducible refine addUser_clean ?_ ?_ ?_)
+
+theorem cc_authenticate {cfg : Cfg} {c : Nat} {x : Ctx} (hcfg : CleanCfg cfg) (hx : CleanCtx x) :
+    CleanCtx (authenticate cfg c x) := by
+  have hcn := cc_conn hx c
+  unfold authenticate
+  dsimp only
+  cc
+macro_rules | `(tactic| cc_step) => `(tactic| with_reducible refine cc_authenticate ‹CleanCfg _› ?_)
+
+theorem cc_processCap {cfg : Cfg} {c : Nat} {sub : CapCommand} {caps : Option (List Str)} {x : Ctx}
+    (hcfg : CleanCfg cfg) (hcaps : ∀ cs, caps = some cs → CleanL cs) (hx : CleanCtx x) :
+    CleanCtx (processCap cfg c sub caps x) := by
+  have hcn := cc_conn hx c
+  cases caps with
+  | none => unfold processCap; dsimp only; cc
+  | some cs => have hcs := hcaps cs rfl; unfold processCap; dsimp only; cc
+
+theorem cc_processAuthenticate {cfg : Cfg} {c : Nat} {x : Ctx} (hcfg : CleanCfg cfg) (hx : CleanCtx x) :
+    CleanCtx (processAuthenticate cfg c x) := by
+  unfold processAuthenticate
+  cc
+
+theorem cc_processPass {cfg : Cfg} {c : Nat} {pass : Str} {x : Ctx} (hcfg : CleanCfg cfg)
+    (hp : Clean pass) (hx : CleanCtx x) : CleanCtx (processPass cfg c pass x) := by
+  have hcn := cc_conn hx c
+  unfold processPass
+  dsimp only
+  cc
+
+theorem cc_processUser {cfg : Cfg} {c : Nat} {username realname : Str} {x : Ctx} (hcfg : CleanCfg cfg)
+    (hu : Clean username) (hr : Clean realname) (hx : CleanCtx x) :
+    CleanCtx (processUser cfg c username realname x) := by
+  have hcn := cc_conn hx c
+  unfold processUser
+  dsimp only
+  cc
+
+
+/-! ### NICK -/
+
+theorem renameIn_clean {old new : Str} {s : KSet} (hs : CleanL s) (hn : Clean new) :
+    CleanL (renameIn old new s) := by
+  unfold renameIn
+  cc
+
+theorem renameUser_clean {ch ch' : Channel} {old new : Str} (hch : CleanChan ch) (hn : Clean new)
+    (h : ch.renameUser old new = some ch') : CleanChan ch' := by
+  unfold Channel.renameUser at h
+  split at h
+  · cases h
+  · cases h
+    have hm := hch.modes
+    refine ⟨hch.topic, ⟨hm.ban, hm.exception, hm.inviteException, hm.key, ?_, ?_, ?_, ?_, ?_⟩,
+      hch.defaultModes, hch.banInfo, ?_⟩
+    · exact renameIn_clean hm.operators hn
+    · exact renameIn_clean hm.halfOperators hn
+    · exact renameIn_clean hm.voices hn
+    · exact renameIn_clean hm.founders hn
+    · exact renameIn_clean hm.protecteds hn
+    · exact (hch.users.erase _).insert hn trivial
+
+theorem pushHistory_clean {w : World} {nick : Str} {e : HistEntry} (h : CleanWorld w) (hn : Clean nick)
+    (he : CleanHist e) : CleanWorld (w.pushHistory nick e) := by
+  unfold World.pushHistory
+  refine cw_histories h (h.histories.insert hn ?_)
+  intro e' he'
+  rcases List.mem_append.1 he' with he' | he'
+  · cases hl : Map.lookup nick w.histories with
+    | none => rw [hl] at he'; cases he'
+    | some l => rw [hl] at he'; exact cw_hist h hl e' he'
+  · simp only [List.mem_singleton] at he'; subst he'; exact he
+macro_rules | `(tactic| cc_step) => `(tactic| with_reducible refine pushHistory_clean ?_ ?_ ?_)
+
+theorem renameInChannels_clean {old new : Str} (hn : Clean new) : ∀ {chs : List Str} {w : World},
+    CleanWorld w → CleanWorld (renameInChannels old new chs w)
+  | [], _, h => h
+  | chn :: chs, w, h => by
+    unfold renameInChannels
+    simp only [List.foldl_cons]
+    refine renameInChannels_clean hn ?_
+    split
+    · exact cw_panic h _
+    · rename_i ch hl
+      split
+      · exact cw_panic h _
+      · rename_i ch' hr
+        exact cw_channels h (h.channels.insert (h.channels.key_of_lookup hl)
+          (renameUser_clean (cw_chan h hl) hn hr))
+macro_rules | `(tactic| cc_step) => `(tactic| with_reducible refine renameInChannels_clean ?_ ?_)
+
+theorem cc_processNick {cfg : Cfg} {c : Nat} {nick : Str} {msg : Message} {x : Ctx} (hcfg : CleanCfg cfg)
+    (hn : Clean nick) (hm : CleanMsg msg) (hx : CleanCtx x) : CleanCtx (processNick cfg c nick msg x) := by
+  have hcn := cc_conn hx c
+  unfold processNick
+  dsimp only
+  cc
+
+theorem cc_processPing {cfg : Cfg} {c : Nat} {token : Str} {x : Ctx} (hcfg : CleanCfg cfg)
+    (ht : Clean token) (hx : CleanCtx x) : CleanCtx (processPing cfg c token x) := by
+  unfold processPing
+  cc
+
+theorem cc_processPong {cfg : Cfg} {c : Nat} {x : Ctx} (hx : CleanCtx x) :
+    CleanCtx (processPong cfg c x) := by
+  have hcn := cc_conn hx c
+  unfold processPong
+  cc
+
+theorem cc_processOper {cfg : Cfg} {c : Nat} {name password : Str} {x : Ctx} (hcfg : CleanCfg cfg)
+    (hx : CleanCtx x) : CleanCtx (processOper cfg c name password x) := by
+  have hcn := cc_conn hx c
+  unfold processOper
+  dsimp only
+  cc
+
+theorem cc_processQuit {cfg : Cfg} {c : Nat} {x : Ctx} (hcfg : CleanCfg cfg) (hx : CleanCtx x) :
+    CleanCtx (processQuit cfg c x) := by
+  have hcn := cc_conn hx c
+  unfold processQuit
+  dsimp only
+  cc
+
 end Irc.C13H
